@@ -755,10 +755,13 @@ func namePointers(opts *FlattenOpts) error {
 		opts:           opts,
 	}
 
+	replan := false
 	for _, key := range depthFirst {
 		v, planned := refsToReplace[key]
 		if !planned {
-			// the holder of this pointer has been moved to a new definition, and rewritten there
+			// the holder of this pointer has been moved to a new definition: the pointer now lives there
+			replan = true
+
 			continue
 		}
 		// update current replacement, which may have been updated by previous changes of deeper elements
@@ -793,6 +796,11 @@ func namePointers(opts *FlattenOpts) error {
 	}
 
 	opts.Spec.reload() // re-analyze
+
+	if replan {
+		// pointers which moved with their holder are planned again, from the keys they now have
+		return namePointers(opts)
+	}
 
 	return nil
 }
@@ -855,6 +863,13 @@ func flattenAnonPointer(key string, v SchemaRef, refsToReplace map[string]Schema
 
 		// regular case: we named the $ref as a definition, and we move all callers to this new $ref
 		moved, _ := url.PathUnescape(v.Ref.String())
+		for planned := range refsToReplace {
+			if planned != key && strings.HasPrefix(planned, moved+"/") {
+				// a pointer held by the very schema which has just been moved to a definition: its key is gone
+				delete(refsToReplace, planned)
+			}
+		}
+
 		for _, caller := range callers {
 			if caller == key {
 				continue
